@@ -8,7 +8,8 @@ raise subclass, VM error, native error} x catch filter {none, Error, subclass,
 non-matching class} x exit path {complete, break, continue, return} x late second error,
 followed by an epilogue that prints every parameter, local and result variable, declares
 and uses a new variable and optionally raises a second error after the try was left;
-plus the opcode-prefix family (vlib/spaces.py): one statement per stack-affecting construct
+plus the multi-clause family (1-4 catch clauses per try in 9 matching patterns x 5 placements
+x 4 origins x loops x exits x raise-in-handler) and the opcode-prefix family (vlib/spaces.py): one statement per stack-affecting construct
 of the language (47, singly and in all ordered pairs) before or inside a try that fires in
 a method of a subclass, the epilogue prints local, parameter, result and two fields.
 Oracle: reference evaluator (vlib/layref.py).
@@ -138,6 +139,51 @@ def opc_expected(spec):
     return "[1, 2, '%s', 1, %d]\n[1, 4, '%s', 3, %d]\n" % (r, k, r, k)
 
 
+CLAUSE_SETS = [["MyErr"], ["OtherErr", "MyErr"], ["MyErr", "OtherErr"], ["OtherErr", "ThirdErr", "MyErr"], ["OtherErr", "ThirdErr"], ["OtherErr", None], [None, "MyErr"], ["ThirdErr", "Error", "MyErr"],
+               ["OtherErr", "ThirdErr", "Error", None]]
+
+
+def multi_scenario(pl, clauses, origin, loop, exitp, raise_in_handler):
+    """several catch clauses on one try: the first matching one runs, the others leave no trace on the stack (locals declared after the try read their own values)"""
+    if exitp in ("break", "continue") and loop == "none":
+        return None
+    if pl == "module" and exitp == "return":
+        return None
+    header = [["class", "MyErr", "Error", []], ["class", "OtherErr", "Error", []], ["class", "ThirdErr", "Error", []]]
+    params = {"module": [], "fn0": [], "fn3": ["p0", "p1", "p2"], "method1": ["p0"], "callback": ["p0"]}[pl]
+    body = [["let", "l0", N(10)], ["let", "r", S("none")]]
+    act = [["let", "t0", S("in")], origin_stmt(origin) if origin != "none" else ["let", "quiet", N(1)]]
+    act.append({"break": ["break"], "continue": ["continue"], "return": ["return", S("ret")]}.get(exitp, ["expr", ["assign", "r", ["bin", "+", V("r"), S("+done")]]]))
+    cl = []
+    for k, cname in enumerate(clauses):
+        h = [["let", "h%d" % k, N(k)], ["expr", ["assign", "r", ["bin", "+", V("r"), S("+c%d" % k)]]], err_print("h%d" % k, "e%d" % k)]
+        if raise_in_handler and k == len(clauses) - 1:
+            h.append(["raise", call("ThirdErr", S("from handler"))])
+        cl.append(("e%d" % k, cname, h))
+    tr = ["trym", act, cl]
+    if loop == "while":
+        body += [["let", "i", N(0)], ["while", ["bin", "<", V("i"), N(2)], [["expr", ["assign", "i", ["bin", "+", V("i"), N(1)]]], ["let", "w0", V("i")], tr, ["expr", ["assign", "r", ["bin", "+", V("r"), S("+it")]]]]]]
+    elif loop == "for":
+        body += [["for", "i", inv(N(2), "times"), [["let", "w0", V("i")], tr, ["expr", ["assign", "r", ["bin", "+", V("r"), S("+it")]]]]]]
+    else:
+        body.append(tr)
+    body += [["let", "y", S("y")], ["let", "z", S("z")], ["print", [S("state")] + [V(p) for p in params] + [V("l0"), V("r"), V("y"), V("z")]]]
+    args = [N(k + 1) for k in range(len(params))]
+    if pl == "module":
+        return header + [["try", body, "eo", None, [err_print("outer", "eo")]], ["print", [S("end")]]]
+    body.append(["return", S("end")])
+    if pl in ("fn0", "fn3"):
+        d = [["fn", "f", params, body]]
+        c = call("f", *args)
+    elif pl == "method1":
+        d = [["class", "K", None, [("method", "m", params, body)]]]
+        c = inv(call("K"), "m", *args)
+    else:
+        d = [["fn", "f", [], [["expr", inv(inv(["list", [N(1), N(2)]], "iter"), "each", ["lambda", params, body, False])], ["return", S("cbend")]]]]
+        c = call("f")
+    return header + d + [["try", [["print", [S("ret"), c]]], "eo", None, [err_print("outer", "eo")]], ["try", [["print", [S("ret2"), c]]], "eo", None, [err_print("outer2", "eo")]], ["print", [S("end")]]]
+
+
 class C04(Check):
     id = "C04"
     level = "exploration"
@@ -156,6 +202,14 @@ class C04(Check):
         from vlib import spaces
         for sp in spaces.opcode_prefix_specs(True):
             yield ("opc", sp)
+        for pl in ("module", "fn0", "fn3", "method1", "callback"):
+            for ci in range(len(CLAUSE_SETS)):
+                for origin in ("none", "sub", "error", "vm"):
+                    for loop in LOOPS:
+                        for exitp in EXITS:
+                            for rih in (False, True):
+                                if multi_scenario(pl, CLAUSE_SETS[ci], origin, loop, exitp, rih) is not None:
+                                    yield ("multi", pl, ci, origin, loop, exitp, rih)
         for f in space:
             if f[5] is None and f[6] != ORIGINS[0] and not th:
                 continue
@@ -165,6 +219,8 @@ class C04(Check):
                 yield f
 
     def describe(self, spec):
+        if spec[0] == "multi":
+            return "multi-catch placement=%s clauses=%s origin=%s loop=%s exit=%s raise_in_handler=%s" % (spec[1], CLAUSE_SETS[spec[2]], spec[3], spec[4], spec[5], spec[6])
         if spec[0] == "opc":
             from vlib import spaces
             return "opcode-prefix %s: %s" % (spec[1], " ".join(spaces.OPCODE_PREFIXES[i] for i in spec[1][0])[:200])
@@ -174,7 +230,7 @@ class C04(Check):
         if spec[0] == "opc":
             from vlib import spaces
             return [{"src": spaces.opcode_prefix_source(spec[1]), "step_limit": 500000}], ("ok", opc_expected(spec[1]), None)
-        stmts = scenario(*spec)
+        stmts = scenario(*spec) if spec[0] != "multi" else multi_scenario(spec[1], CLAUSE_SETS[spec[2]], *spec[3:])
         src, _ = L.render(stmts)
         try:
             exp = L.Interp().run(stmts)[:3]
@@ -197,6 +253,8 @@ class C04(Check):
                 cls, "(%s)" % ecls if ecls else "", out, r.get("class"), r.get("out"), r.get("err", "")[-200:], r.get("panic") or ""))
         if spec[0] == "opc":
             return Verdict(True, spec[1][2] != "none", "opc:" + spec[1][2])
+        if spec[0] == "multi":
+            return Verdict(True, spec[3] != "none", "multi:" + cls)
         return Verdict(True, spec[5] is not None or spec[9], "%s:%s" % (cls, "caught" if "+caught" in out else "other"))
 
 
